@@ -279,6 +279,15 @@ def search(ctx):
         c = d.get('case') or {}
         if 'history' in c and c.get('class') in L.CLASSES and L.in_alphabet(c['history']):
             todo.append(('X', c['class'], c['cfg'], c['seed'], c.get('using_cache', False), c['history']))
+            # a white-box state difference (a cache entry that should have been dropped) is only observable later: complete the
+            # history with the continuations that would expose a stale entry
+            if len(todo) < 400:
+                for suffix in (['update', 'eval', 'use_cache:1', 'fwd'], ['update', 'eval', 'use_cache:1', 'inv'],
+                               ['train', 'update', 'eval', 'use_cache:1', 'fwd'], ['train', 'update', 'eval', 'use_cache:1', 'inv'],
+                               ['use_cache:1', 'fwd'], ['use_cache:1', 'inv']):
+                    h2 = list(c['history']) + suffix
+                    if L.in_alphabet(h2):
+                        todo.append(('X', c['class'], c['cfg'], c['seed'], c.get('using_cache', False), h2))
     gen = [c for c in gen_cases(ctx, for_search=True)]
     gen.sort(key=lambda c: len(c[5]))
     todo += gen
